@@ -335,6 +335,15 @@ func streamStd(r *rng, n int, pfx string) {
 				// to do the same (Decoder.UseNumber; the text is a single value, so Decode = Unmarshal)
 				sd := stdjson.NewDecoder(bytes.NewReader(text))
 				sd.UseNumber()
+				if len(text)%4 == 0 {
+					// what an unrelated STRICT Decoder did a moment ago (DisallowUnknownFields, UseNumber off) is nobody
+					// else's business: Unmarshal below must behave as in a fresh process (a function of the case)
+					strict := ijson.NewDecoder(strings.NewReader(`{"known":1} {"unknown":2}`))
+					strict.DisallowUnknownFields()
+					var tgt struct{ Known int }
+					_ = strict.Decode(&tgt)
+					_ = strict.Decode(&tgt)
+				}
 				ue, ve := ijson.Unmarshal(text, pa.Interface()), sd.Decode(pb.Interface())
 				if (ue == nil) != (ve == nil) {
 					return "diff:error"
@@ -575,7 +584,51 @@ func prepareCalls(r *rng, k int) []prepared {
 	for i := 0; i < k; i++ {
 		key := fmt.Sprintf("k%d-%d", r.next(), i)
 		_ = key
-		switch r.n(8) {
+		switch r.n(9) {
+		case 8:
+			// a PAIR of calls on ONE options object whose limit is exactly the copy total of the second: the first runs
+			// the same copies and then fails (a failed call must leave nothing behind in the options, in the Patch or
+			// anywhere else), the second must still succeed, before and after any number of executions of the first
+			o := randOpts(r)
+			o.ensure = false
+			c := genApplyCase(r, cfgFor(r), o, r.n(3), r.n(3), 4)
+			var docv *jv
+			if v, err := parseJV(c.doc); err == nil {
+				docv = v
+			} else {
+				continue
+			}
+			f := existingPath(r, docv)
+			c.ops = append([]opSpec{{op: "copy", path: pickPath(r, docv, true), from: &f}}, c.ops...)
+			c.patch = spell{1, r}.patchText(c.ops)
+			totals := copyTotals(c)
+			if len(totals) == 0 {
+				continue
+			}
+			c.o.limit = totals[len(totals)-1]
+			bad := c
+			bad.ops = append(append([]opSpec{}, c.ops...), opSpec{op: "test", path: "/no/such/member", value: jnum("1")})
+			bad.patch = spell{1, r}.patchText(bad.ops)
+			for ci, cc := range []acase{bad, c} {
+				cc := cc
+				key := fmt.Sprintf("%s-%d", key, ci)
+				shared, derr := jsonpatch.DecodePatch(cc.patch)
+				fp := patchFingerprint(shared)
+				calls = append(calls, prepared{func(id string) {
+					docSnap := append([]byte(nil), cc.doc...)
+					var obs string
+					if derr != nil {
+						obs = callApply(cc.o, cc.indent, cc.doc, cc.patch)
+					} else {
+						obs = callApplyDecoded(cc.o, cc.indent, cc.doc, shared)
+					}
+					extra := ""
+					if !bytes.Equal(docSnap, cc.doc) || patchFingerprint(shared) != fp || !cc.o.sharedIntact() {
+						extra += " mut=1"
+					}
+					emitHist(key, "APPLY %s %s %d %s %s %s => %s%s", id, cc.o.flags(), cc.o.limit, hx([]byte(cc.indent)), hx(cc.doc), hx(cc.patch), obs, extra)
+				}})
+			}
 		case 0, 1, 2:
 			o := randOpts(r)
 			if r.chance(1, 3) {
@@ -592,6 +645,10 @@ func prepareCalls(r *rng, k int) []prepared {
 				gc.maxMember = 6
 			}
 			c := genApplyCase(r, gc, o, r.n(3), r.n(3), 5)
+			if r.chance(1, 80) {
+				// a result of more than 64 KiB that the caller keeps while later calls run
+				c = bigApplyCase(r, o, 66000)
+			}
 			// escaped reference tokens (~0, ~1) in many of the concurrently applied patches: token
 			// decoding is shared code
 			if r.chance(1, 2) && len(c.doc) > 0 && c.doc[0] == '{' {
@@ -709,13 +766,16 @@ func streamHist(r *rng, n int, pfx string) {
 	for done < n {
 		k := 6
 		calls := prepareCalls(r, k)
+		if len(calls) == 0 {
+			continue
+		}
 		scribble = round%2 == 1
 		steps := 3 * k
 		for s := 0; s < steps && done < n; s++ {
 			if r.chance(1, 2) {
 				ijson.VerifPoisonPools(1+r.n(4), r.next())
 			}
-			j := r.n(k)
+			j := r.n(len(calls))
 			calls[j].run(fmt.Sprintf("%sr%dc%ds%d", pfx, round, j, s))
 			done++
 		}
@@ -732,6 +792,9 @@ func streamConc(r *rng, n int, pfx string) {
 	for done < n {
 		k := 5
 		calls := prepareCalls(r, k)
+		if len(calls) == 0 {
+			continue
+		}
 		g := 4 + r.n(5)
 		per := 6
 		var wg sync.WaitGroup
@@ -739,7 +802,7 @@ func streamConc(r *rng, n int, pfx string) {
 			wg.Add(1)
 			order := make([]int, per)
 			for i := range order {
-				order[i] = r.n(k)
+				order[i] = r.n(len(calls))
 			}
 			go func(t int, order []int) {
 				defer wg.Done()
@@ -1066,7 +1129,10 @@ func emitCli(id, pkg, bin string, stdin []byte, args, fields []string, texts [][
 // ---------- run-time generated struct types (C17: tags, embedding, field-name matching) ----------
 
 var fieldNames = []string{"A", "B", "Name", "NAME", "Name2", "X1", "X_1", "Key", "KEY", "Ab", "AB", "Inner", "Val", "K9", "Zeta"}
-var tagNames = []string{"", "", "a", "A", "name", "Name", "k9", "K9", "x-1", "x_1", "ſ", "K", "k", "-", "with space", "é"}
+var tagNames = []string{"", "", "a", "A", "name", "Name", "k9", "K9", "x-1", "x_1", "ſ", "K", "k", "-", "with space", "é",
+	// one name per class of fold.go's foldFunc and names that MIX the classes in both orders (s/k before and after a non-ASCII
+	// letter, letters other than s/k only, no letters at all): the matcher is chosen per field name
+	"straße", "señor", "kälte", "étés", "naïve", "日本k", "ab", "q_1", "_1"}
 
 // struct types generated for the current top-level type: one of them is REUSED now and then, so that the same type is
 // reached along two embedding paths (a diamond: its promoted fields are ambiguous at equal depth, visible at different depths)
@@ -1307,13 +1373,16 @@ func recase(r *rng, t []byte) []byte {
 		switch x.kind {
 		case kObj:
 			for i := range x.keys {
-				switch r.n(6) {
+				switch r.n(7) {
 				case 0:
 					x.keys[i] = strings.ToUpper(x.keys[i])
 				case 1:
 					x.keys[i] = strings.ToLower(x.keys[i])
 				case 2:
 					x.keys[i] = strings.Title(strings.ToLower(x.keys[i]))
+				case 3:
+					// the two non-ASCII letters that fold to ASCII ones
+					x.keys[i] = strings.NewReplacer("s", "\u017f", "k", "\u212a", "S", "\u017f", "K", "\u212a").Replace(x.keys[i])
 				}
 				walk(x.vals[i])
 			}
